@@ -105,3 +105,59 @@ PROPS["C03"] = {
                   "attributed to a cause so the recorded import-merging findings do not mask a wrong canonical name or a lost import.",
     "level_note": "Inside a group of names that wac merges (same interface id / same semver track) only the existence of an import of the group is demanded and the deviation is reported under one recorded finding; canonical-name selection itself is decided at the aggregator level by C09. Creation-order permutations are covered by C16's workload.",
 }
+
+_GRAMMAR_RULE = ("Documents are derived at random from the EBNF of LANGUAGE.md (package directive with/without version and "
+                 "`targets`; import statements with path/func/inline-interface/ident types and `as`; interface, world, variant, "
+                 "record, flags, enum, alias, resource declarations with constructors/methods/statics; `use` with renames; world "
+                 "imports/exports/includes with `with`; let/export statements with nested `new` expressions, all four argument "
+                 "forms, access/named-access chains, nested parentheses, `as` and spread exports), 1-8 statements, type/expression "
+                 "depth <= 3; identifiers include kebab-case, upper-case words and %-escaped keywords; strings include unicode, "
+                 "newlines and comment-like text; layout is randomised (spaces, tabs, CRLF, line comments, nested block comments, "
+                 "no separator where tokens cannot fuse). ")
+
+PROPS["C12"] = {
+    "shards": 16,
+    "quick_budget_s": 60,
+    "thorough_budget_s": 900,
+    "floors": {"any": {"positive:accepted": 1000, "mutant:delete:rejected": 1000, "mutant:substitute:rejected": 1000,
+                       "mutant:swap:rejected": 1000, "mutant:duplicate:rejected": 1000, "mutant:insert:rejected": 1000,
+                       "mutant:substitute:still-grammatical": 20, "lexical:forbidden-codepoint-rejected": 500,
+                       "lexical:bad-token-rejected": 500, "production:targets-clause": 100, "production:arg-fill-not-last": 50,
+                       "production:include-with": 50, "production:static-method": 50, "production:id-escaped": 500}},
+    "rule": _GRAMMAR_RULE + "Positive side: every generated document must parse and its serialised tree (spans and doc comments "
+            "removed) must equal the tree the generator built alongside the tokens. Negative side: 10 token-level mutants per "
+            "document (delete / duplicate / substitute / swap-adjacent / insert, sometimes two) rendered with single spaces so the "
+            "token sequence is unambiguous; wac must accept exactly when the reference recogniser (recursive descent written from "
+            "the EBNF) accepts, and every rejection must carry a label inside the source on char boundaries. Lexical negatives: a "
+            "bidi/deprecated/control code point inserted at a random position (also inside comments and strings), unterminated "
+            "string/comment, stray characters, invalid semver after `@`, empty record/variant/enum/flags/tuple bodies. "
+            "Non-trivial: document with >= 3 statement/declaration kinds; distinct by token text with digits removed.",
+    "assumptions": ["reference `id` admits upper-case words (WIT acronyms) as the implementation's token rule does",
+                    "an argument list may be empty and `...` may stand at any argument position syntactically ('must be last' is an evaluation rule, C04)",
+                    "`results ::= type` only: the EBNF's named result list was removed from WIT and is documentation staleness, not a defect",
+                    "`borrow<id>`: a borrow names a resource",
+                    "doc comments are not compared here (C13 compares them); note: wac loses doc comments that follow a CR LF line ending, which no given property covers"],
+    "technique": "runtime monitor: reference recogniser + generator-side tree as oracle over grammar-generated documents and token-level mutants",
+    "level_text": "Acceptance is compared with an independent recogniser on ~10^4-10^6 near-miss token sequences per run and the tree is "
+                  "compared with the generator's model on every positive; this decides 'accepts exactly the language' on the sampled "
+                  "strings, which a list of fixed accepted snippets cannot.",
+    "level_note": "The recogniser encodes our reading of the EBNF with the four documented deviations; held on sampled strings only.",
+}
+
+PROPS["C13"] = {
+    "shards": 16,
+    "quick_budget_s": 60,
+    "thorough_budget_s": 900,
+    "floors": {"any": {"roundtrip-ok": 2000, "repo-wac-files": 100, "production:targets-clause": 100,
+                       "production:arg-fill-not-last": 50, "production:static-method": 50, "production:use-rename": 100,
+                       "production:include-with": 50, "production:id-escaped": 500, "production:doc-comment": 500}},
+    "rule": _GRAMMAR_RULE + "Every .wac file found under the repository (tests, examples) and every generated document is parsed, "
+            "printed (p1), re-parsed and printed again (p2): parse(p1) must succeed, the span-stripped trees must be equal with doc "
+            "comments compared as lists of trimmed non-empty lines, and p2 must equal p1 byte for byte. Non-trivial: >= 3 "
+            "statement/declaration kinds; distinct by token sequence.",
+    "assumptions": ["'up to doc-comment line splitting' = docs compared as the list of trimmed non-empty lines"],
+    "technique": "runtime monitor: algebraic round-trip laws (parse∘print = id on trees, print idempotent) over generated and shipped documents",
+    "level_text": "The laws are evaluated on every accepted document of the workload, including every construct the statement lists "
+                  "(evidence.observed.production:* counts how often each was printed).",
+    "level_note": "Held on generated + shipped documents; repo fixtures that do not parse are counted as not-accepted and skipped.",
+}
